@@ -107,6 +107,11 @@ impl IgnoreStack {
         if !found {
             return self.clone();
         }
+        // When following links, the same directory can be entered again with a stack that
+        // contains its ignore files already.
+        if self.0.iter().any(|g| g.path() == dir.to_path_buf()) {
+            return self.clone();
+        }
         let gitignore = match builder.build() {
             Ok(gitignore) => gitignore,
             Err(err) => {
@@ -123,6 +128,18 @@ impl IgnoreStack {
         let mut stack = self.0.as_ref().clone();
         stack.push(gitignore);
         IgnoreStack(Arc::new(stack))
+    }
+
+    /// Identifies the ignore rules of this stack: the directories the ignore files were
+    /// loaded from, in order.
+    fn id(&self) -> u64 {
+        use std::hash::{Hash, Hasher};
+        let mut hasher = std::collections::hash_map::DefaultHasher::new();
+        for gitignore in self.0.iter() {
+            gitignore.path().hash(&mut hasher);
+        }
+        self.0.len().hash(&mut hasher);
+        hasher.finish()
     }
 
     /// Returns true if the gitignore files in the stack select given path.
@@ -178,8 +195,11 @@ pub struct Walk<'a> {
 /// Private shared state scoped to a single `run` invocation.
 struct WalkState<F> {
     pub consumer: F,
-    /// Visited paths with the smallest nesting level they were visited at
-    pub visited: DashMap<u128, usize>,
+    /// Visited paths with the smallest nesting level they were visited at.
+    /// When following links a directory can be reached by several routes that carry different
+    /// ignore rules; a visit counts only for the rules it was made with, so that the result
+    /// doesn't depend on which route gets there first.
+    pub visited: DashMap<(u128, u64), usize>,
 }
 
 impl<'a> Walk<'a> {
@@ -322,7 +342,7 @@ impl<'a> Walk<'a> {
         // A directory is marked in `visit_dir`, only when it is really going to be read.
         if self.follow_links
             && entry.tpe != EntryType::Dir
-            && !self.mark_visited(&entry.path, entry.tpe, level, state)
+            && !self.mark_visited(&entry.path, entry.tpe, level, &gitignore, state)
         {
             return;
         }
@@ -345,12 +365,13 @@ impl<'a> Walk<'a> {
         path: &Path,
         tpe: EntryType,
         level: usize,
+        gitignore: &IgnoreStack,
         state: &WalkState<F>,
     ) -> bool {
         let mut visit = false;
         state
             .visited
-            .entry(path.hash128())
+            .entry((path.hash128(), gitignore.id()))
             .and_modify(|visited_level| {
                 if tpe != EntryType::File && level < *visited_level {
                     *visited_level = level;
@@ -426,7 +447,8 @@ impl<'a> Walk<'a> {
         }
         // Mark the directory as visited only now, when nothing can stop us from reading it,
         // otherwise it would not be read when reached another way that allows for it.
-        if self.follow_links && !self.mark_visited(&path, EntryType::Dir, level, state) {
+        if self.follow_links && !self.mark_visited(&path, EntryType::Dir, level, &gitignore, state)
+        {
             return;
         }
 
